@@ -4,7 +4,7 @@ META = {
     'level': 'exploration',
     'rule': ('1-6 task DAGs on fork/spawn (gate-controlled release order decides which task finishes in the last '
              'polling round; also free-running and single-task runs) and serial; every task emits unique tokens '
-             'through labtech.logger (info/warning/error) and, on process backends, through print/sys.std*.write in a '
+             'through labtech.logger (info/warning/error; records carrying exc_info; records whose %-arguments cannot be pickled) and, on process backends, through print/sys.std*.write in a '
              'planned pattern (no flush, one flush, several flushes, several lines per flush, write without newline, '
              'stderr, thousands of lines in one record (thorough tier), thousands of separate records from one task (2-4 % of the runs)); in 45 % of the runs some tasks fail AFTER emitting (ValueError / SystemExit / unpicklable exception, or the worker process dies on the spot through os._exit / SIGKILL - then everything it had handed to the logger or flushed counts, output still in its stream buffer does not). A logging.Handler on labtech.logger in the caller '
              'collects records; it is read at the moment run_tasks returns. Oracle: every emitted token occurs '
@@ -33,6 +33,10 @@ def gen_pattern(rng, name, process_backend, big=False):
         return t
     for _ in range(rng.randrange(0, 3)):
         ops.append(['log', rng.choice(['info', 'warning', 'error']), tok('logger')])
+    if rng.random() < 0.15:
+        ops.append(['logexc', tok('logger-exc_info')])
+    if rng.random() < 0.15:
+        ops.append(['logobj', tok('logger-unpicklable-args')])
     r = rng.random()
     if r < 0.12:
         # the task makes its own logging more verbose than the caller's (labtech.logger.setLevel inside run())
@@ -232,6 +236,7 @@ def replay(rep, wit):
     suppressed = {t for e in out.events if e['k'] == 'log-suppressed' for t in e['toks']}
     for n, p in scn['task_plan'].items():
         for op in p['logs']:
-            if op[0] in ('log', 'print', 'write') and op[2] not in suppressed and text.count(op[2]) != 1:
-                rep.violation('lost-or-duplicated', f'{op} of {n} received {text.count(op[2])} times', wit['witness'])
+            t = op[1] if op[0] in ('logexc', 'logobj') else (op[2] if op[0] in ('log', 'print', 'write') else None)
+            if t is not None and t not in suppressed and text.count(t) != 1:
+                rep.violation('lost-or-duplicated', f'{op} of {n} received {text.count(t)} times', wit['witness'])
                 return
